@@ -31,17 +31,17 @@ import (
 )
 
 type pairCfg struct {
-	Round      int   `json:"round"`
-	Pair       int   `json:"pair"`
-	Seed       int64 `json:"content_seed"`
-	Comp       bool  `json:"compression"`
-	LevelA     int   `json:"level_server_side"`
-	LevelB     int   `json:"level_client_side"`
-	FrameLimit int   `json:"frame_limit"`
-	Release    bool  `json:"release_payload"`
-	Hooked     bool  `json:"decompressor_through_hook"`
-	OwnAlloc   bool  `json:"own_body_allocator"`
-	Msgs       int   `json:"messages"`
+	Round      int    `json:"round"`
+	Pair       int    `json:"pair"`
+	Seed       int64  `json:"content_seed"`
+	Comp       bool   `json:"compression"`
+	LevelA     int    `json:"level_server_side"`
+	LevelB     int    `json:"level_client_side"`
+	FrameLimit int    `json:"frame_limit"`
+	Release    bool   `json:"release_payload"`
+	Hooked     bool   `json:"decompressor_through_hook"`
+	Alloc      string `json:"body_allocator"` // "" the engines' default pool, else see cfg.Alloc
+	Msgs       int    `json:"messages"`
 }
 
 // a net.Conn that keeps what was written since the last take()
@@ -268,15 +268,15 @@ func concurrentPairs() {
 				FrameLimit: []int{32768, 4096, 65536, 1000, 32768}[(p+round)%5],
 				Release:    p%2 == 1,
 				Hooked:     p%5 == 4,
-				OwnAlloc:   p%3 == 2,
+				Alloc:      allocKinds[(p+round)%len(allocKinds)],
 				Msgs:       msgs}
 			// engines are made here, one after the other: NewEngine is not part of what is tested concurrently
 			engs[p] = [2]*nbhttp.Engine{newEngine(), newEngine()}
 			for _, e := range engs[p] {
 				e.MaxWebsocketFramePayloadSize = cfgs[p].FrameLimit
 				e.ReadLimit = 0
-				if cfgs[p].OwnAlloc {
-					e.BodyAllocator = newMeter() // a locked wrapper around the same default pool
+				if cfgs[p].Alloc != "" {
+					e.BodyAllocator = newMeterOf(cfgs[p].Alloc) // locked wrapper; "aligned" is one instance shared by all pairs
 				}
 			}
 		}
